@@ -89,3 +89,6 @@ type Triple[A, B, C any] struct {
 	B B
 	C C
 }
+
+// Größe: a defined type with a non-ASCII name
+type Größe int
